@@ -301,12 +301,53 @@ def run_post(c, rec):
                 obj.disable_FD()
 
 
+def run_reassign(c, rec):
+    """gradient after parameters were re-assigned on a live object (caches must follow the parameters)"""
+    import cuqi
+    kind, s1, s2 = c["kind"], c["s1"], c["s2"]
+    fam = s1.get("fam", kind)
+    tags = {"kind": kind, "fam": fam}
+    if kind == "gmrf":
+        tags.update(bc=s1["bc"], order=s1["order"])
+    if rec.classify(tags, True):
+        return
+    old = cuqi.config.MIN_DIM_SPARSE
+    try:
+        if kind == "gaussian" and s1["sparse_switch"] == "above":
+            cuqi.config.MIN_DIM_SPARSE = 1
+        refused, d1 = refuses(lambda: c04._build_any(kind, s1))
+        refused2, d2 = refuses(lambda: c04._build_any(kind, s2))
+        if refused or refused2:
+            rec.count("construction_refused")
+            return
+        x = dists.Reference(s2).inside(s2["raw"]) if kind == "family" else A(s2["x"])
+        if fam == "Laplace":
+            return
+        x0 = dists.Reference(s1).inside(s1["raw"]) if kind == "family" else A(s1["x"])
+        refuses(lambda: d1.gradient(x0.copy()))  # warm any cache
+        refuses(lambda: d1.logd(x0.copy()))
+        for name in [v for v in d1.get_mutable_variables() if not v.startswith("_")]:
+            refused, _ = refuses(lambda: setattr(d1, name, getattr(d2, name)))
+            if refused:
+                rec.count("assignment_refused")
+                return
+        base = refuses(lambda: scalar(d1.logd(x.copy())))
+        if base[0] or not np.isfinite(base[1]):
+            rec.inconc("own_logd_unavailable")
+            return
+        res = judge(f"{fam} after re-assigning its parameters", d1.gradient, d1.logd, x, rec)
+        rec.count(f"reassign:{res}")
+    finally:
+        cuqi.config.MIN_DIM_SPARSE = old
+
+
 SUBCHECKS = [
     SubCheck("C03/families", run_family, strategy=lambda tier: dists.family_spec(max_dim=4), n={"quick": 1200, "thorough": 30000},
              shards={"quick": 4, "thorough": 16}),
     SubCheck("C03/gallery_user", run_gallery, strategy=gallery_cases, n={"quick": 200, "thorough": 3000}, shards={"quick": 2, "thorough": 4}),
     SubCheck("C03/gaussian_forms", run_gauss, strategy=c04.gauss_cases, n={"quick": 800, "thorough": 20000},
              shards={"quick": 4, "thorough": 16}),
+    SubCheck("C03/reassign", run_reassign, strategy=c04.reassign_cases, n={"quick": 600, "thorough": 12000}, shards={"quick": 4, "thorough": 16}),
     SubCheck("C03/mrf", run_mrf, strategy=mrf_cases, n={"quick": 600, "thorough": 12000}, shards={"quick": 4, "thorough": 16}),
     SubCheck("C03/likelihood_posterior", run_post, strategy=post_cases, n={"quick": 800, "thorough": 20000},
              shards={"quick": 8, "thorough": 16}),
